@@ -97,6 +97,14 @@ Stateless(e) ==
       [] e.ev = "strategy"    -> StrategyOK(e)
       [] OTHER -> FALSE
 
+(* drift: integer data under the data-size strategies - the documented bin count and the exact edges *)
+Drift(e) ==
+    /\ e.ev = "strategy" /\ e.out = "ok" /\ Has(e, "raw") /\ Has(e, "mn")
+    /\ e.strat \in {"sqrt", "rice", "sturges"} /\ e.n <= 2000
+    /\ LET k == StrategyK(e.strat, e.n)
+           w == IF k > 0 THEN (e.mx - e.mn) \div k ELSE 0
+       IN w <= 0 \/ e.raw # IntEdges(e.mn, e.mx, w)
+
 TInit == /\ l = 1 /\ clean = TRUE
          /\ axes = <<>> /\ counts = <<>> /\ seen = <<>> /\ hist = <<>> /\ last = "none"
 
@@ -113,7 +121,7 @@ TNext ==
               /\ IF AddOK(e) THEN UNCHANGED clean ELSE MarkBad(l) /\ clean' = FALSE
          [] OTHER ->
               /\ UNCHANGED <<vars, clean>>
-              /\ IF Stateless(e) THEN TRUE ELSE MarkBad(l)
+              /\ IF Stateless(e) THEN (IF Drift(e) THEN MarkDrift(l) ELSE TRUE) ELSE MarkBad(l)
     /\ l' = l + 1
 TSpec == TInit /\ [][TNext]_tvars
 =============================================================================
